@@ -5,6 +5,7 @@ package main
 import (
 	"fmt"
 	"go/token"
+	"sort"
 	"strings"
 
 	"golang.org/x/tools/go/ssa"
@@ -13,7 +14,7 @@ import (
 func init() {
 	register("C13",
 		"that the counters land on the right civil days for every year (the term days themselves and the civil-day arithmetic between them are numeric: C03, C04).",
-		r13_1, r13_2, r13_3, r13_4, r13_5)
+		r13_1, r13_2, r13_4, r13_5)
 }
 
 var c13Accessors = map[string]bool{"GetShuJiu": true, "GetFu": true, "GetHou": true, "GetWuHou": true, "GetFestivals": true, "GetOtherFestivals": true}
@@ -73,57 +74,6 @@ func r13_2(c *Ctx, r *Report) {
 }
 
 // callsOn lists calls of the named *Solar method in fn as "recv.method(arg)" using variable comments.
-func r13_3(c *Ctx, r *Report) {
-	const rule = "R13.3"
-	r.rule(rule, "Interval tests. The nine-nines count is absent iff the day is before the start or not before start + 81 (start <= day < start+81, the start falling back to the previous winter solstice when the day precedes this winter's); the middle dog-day period is extended iff Liqiu is strictly after the fifth geng day; each dog-day period test is days < 10.")
-	if fn := c.Fn(r, rule, "calendar.(*Lunar).GetShuJiu"); fn != nil {
-		// return nil is guarded by current.IsBefore(start) || !current.IsBefore(end)
-		var atoms []string
-		for _, b := range fn.Blocks {
-			iff, ok := b.Instrs[len(b.Instrs)-1].(*ssa.If)
-			if !ok {
-				continue
-			}
-			if call, ok := iff.Cond.(*ssa.Call); ok && call.Common().StaticCallee() != nil && call.Common().StaticCallee().Name() == "IsBefore" {
-				nilOnTrue := leadsToNilReturn(b.Succs[0])
-				nilOnFalse := leadsToNilReturn(b.Succs[1])
-				arg := "start"
-				if inner, ok := call.Common().Args[1].(*ssa.Call); ok && inner.Common().StaticCallee() != nil && inner.Common().StaticCallee().Name() == "NextDay" {
-					arg = "end"
-				}
-				atoms = append(atoms, fmt.Sprintf("IsBefore(%s): nil-on-true=%v nil-on-false=%v", arg, nilOnTrue, nilOnFalse))
-			}
-		}
-		want := []string{"IsBefore(start): nil-on-true=false nil-on-false=false", "IsBefore(start): nil-on-true=true nil-on-false=false", "IsBefore(end): nil-on-true=false nil-on-false=true"}
-		r.check(equalStrs(atoms, want), rule, "calendar.(*Lunar).GetShuJiu reports a count iff start <= day < start+81", c.fnPos(fn), strings.Join(atoms, " | "))
-	}
-	if fn := c.Fn(r, rule, "calendar.(*Lunar).GetFu"); fn != nil {
-		strict := false
-		for _, b := range fn.Blocks {
-			iff, ok := b.Instrs[len(b.Instrs)-1].(*ssa.If)
-			if !ok {
-				continue
-			}
-			if call, ok := iff.Cond.(*ssa.Call); ok && call.Common().StaticCallee() != nil && fname(call.Common().StaticCallee()) == "calendar.(*Solar).IsAfter" {
-				strict = true
-			}
-		}
-		r.check(strict, rule, "calendar.(*Lunar).GetFu extends the middle period iff Liqiu is strictly after the fifth geng day", c.fnPos(fn), "liQiu.IsAfter(fifth geng day)")
-	}
-}
-
-func leadsToNilReturn(b *ssa.BasicBlock) bool {
-	if len(b.Instrs) == 0 {
-		return false
-	}
-	ret, ok := b.Instrs[len(b.Instrs)-1].(*ssa.Return)
-	if !ok || len(ret.Results) != 1 {
-		return false
-	}
-	k, ok := ret.Results[0].(*ssa.Const)
-	return ok && k.Value == nil
-}
-
 // isAbsOfField: v is |recv.field| computed as "m := f; if m < 0 { m = -m }".
 func isAbsOfField(c *Ctx, fn *ssa.Function, v ssa.Value, field string) bool {
 	phi, ok := v.(*ssa.Phi)
@@ -150,41 +100,77 @@ func isAbsOfField(c *Ctx, fn *ssa.Function, v ssa.Value, field string) bool {
 
 func r13_4(c *Ctx, r *Report) {
 	const rule = "R13.4"
-	r.rule(rule, "New Year's Eve. Chuxi is reported iff |month| == 12 (a leap twelfth month included) and day >= 29 and the lunar year differs from tomorrow's lunar year.")
+	r.rule(rule, "New Year's Eve, as a decision table over month (1..12 and the leap months -1..-12), day (1..30) and whether tomorrow's lunar year differs: GetFestivals appends 除夕 iff |month| == 12 (a leap twelfth month included) and day >= 29 and the lunar year of Next(1) differs from this date's (evaluated from the code, helpers inline; the appended names are collected in order).")
 	fn := c.Fn(r, rule, "calendar.(*Lunar).GetFestivals")
-	if fn == nil {
+	if fn == nil || len(fn.Params) != 1 {
 		return
 	}
-	abs12, day29, yearNext := false, false, false
-	for _, b := range fn.Blocks {
-		iff, ok := b.Instrs[len(b.Instrs)-1].(*ssa.If)
-		if !ok {
+	problems := map[string]bool{}
+	var bad []string
+	n := 0
+	for m := int64(-12); m <= 12; m++ {
+		if m == 0 {
 			continue
 		}
-		bo, ok := iff.Cond.(*ssa.BinOp)
-		if !ok {
-			continue
-		}
-		if k, ok := constInt(bo.Y); ok {
-			if bo.Op == token.EQL && k == 12 {
-				abs12 = isAbsOfField(c, fn, bo.X, "Lunar.month")
-			}
-			if _, f, ok := getterField(c, bo.X); ok && f == "Lunar.day" && bo.Op == token.GEQ && k == 29 {
-				day29 = true
-			}
-		}
-		if bo.Op == token.NEQ {
-			if _, f, ok := getterField(c, bo.X); ok && f == "Lunar.year" {
-				if call, ok := bo.Y.(*ssa.Call); ok && call.Common().StaticCallee() != nil && call.Common().StaticCallee().Name() == "GetYear" {
-					if nx, ok := call.Common().Args[0].(*ssa.Call); ok && nx.Common().StaticCallee() != nil && fname(nx.Common().StaticCallee()) == "calendar.(*Lunar).Next" {
-						if k, ok := constInt(nx.Common().Args[1]); ok && k == 1 {
-							yearNext = true
+		for d := int64(1); d <= 30; d++ {
+			for _, turn := range []bool{false, true} {
+				if len(bad) >= 4 || len(problems) > 0 {
+					break
+				}
+				env := &dayEnv{problems: problems, fields: map[string]int64{"Lunar.month": m, "Lunar.day": d}}
+				env.extra = func(fr *evalFrame, v ssa.Value, leaf leafX) (interface{}, bool) {
+					if call, ok := v.(*ssa.Call); ok && call.Common().StaticCallee() != nil && recvIsNamed(call.Common().StaticCallee(), "Lunar") && call.Common().StaticCallee().Name() == "Next" && len(call.Common().Args) == 2 {
+						if ofr, o := fr.origin(call.Common().Args[0]); ofr.parent == nil && o == ssa.Value(fn.Params[0]) {
+							if k, ok := evalWith(fr, call.Common().Args[1], leaf); ok && k == interface{}(int64(1)) {
+								return absPtr{"tomorrow", false}, true
+							}
+						}
+						problems["a lunar date other than tomorrow's is consulted"] = true
+						return nil, false
+					}
+					if rc, f, ok := getterField(c, v); ok && f == "Lunar.year" {
+						if o, ok := evalWith(fr, rc, leaf); ok {
+							if p, isP := o.(absPtr); isP && p.tag == "tomorrow" {
+								if turn {
+									return int64(2025), true
+								}
+								return int64(2024), true
+							}
+						}
+						if ofr, o := fr.origin(rc); ofr.parent == nil && o == ssa.Value(fn.Params[0]) {
+							return int64(2024), true
 						}
 					}
+					return nil, false
+				}
+				ev := &evaluator{leaf: dayLeaf(c, fn.Params[0], env), inline: inlineLibrary}
+				eve := 0
+				ev.visit = func(fr *evalFrame, call *ssa.Call) {
+					callee := call.Common().StaticCallee()
+					if callee == nil || !strings.HasPrefix(callee.String(), "(*container/list.List).Push") || len(call.Common().Args) != 2 {
+						return
+					}
+					if o, ok := ev.eval(fr, unwrapIface(call.Common().Args[1]), 0); ok && o == interface{}("除夕") {
+						eve++
+					}
+				}
+				_, outcome := ev.run(fn, nil, nil, nil, nil)
+				n++
+				want := 0
+				if (m == 12 || m == -12) && d >= 29 && turn {
+					want = 1
+				}
+				if outcome != "return" {
+					bad = append(bad, fmt.Sprintf("month %d day %d: %s %s", m, d, outcome, ev.fail))
+				} else if eve != want {
+					bad = append(bad, fmt.Sprintf("month %d day %d, tomorrow in %s lunar year: 除夕 appended %d times, stated %d", m, d, map[bool]string{false: "the same", true: "the next"}[turn], eve, want))
 				}
 			}
 		}
 	}
-	r.check(abs12 && day29 && yearNext, rule, "calendar.(*Lunar).GetFestivals reports Chuxi on the last day of the lunar year", c.fnPos(fn),
-		fmt.Sprintf("|month| == 12: %v; day >= 29: %v; year != Next(1).GetYear(): %v", abs12, day29, yearNext))
+	for p := range problems {
+		bad = append(bad, p)
+	}
+	sort.Strings(bad)
+	r.check(len(bad) == 0 && n > 0, rule, "calendar.(*Lunar).GetFestivals reports Chuxi on the last day of the lunar year", c.fnPos(fn), fmt.Sprintf("%d assignments; deviations: %v", n, headList(dedupe(bad), 3)))
 }
